@@ -189,14 +189,15 @@ func (r *R) finish() {
 }
 
 // watchdog state
-var caseStart atomic.Int64
+var caseStart atomic.Int64 // monotonic nanoseconds since procStart (+1), 0 = no case running
+var procStart = time.Now()
 var caseLabel atomic.Value
 
 // RunCase runs one case of a family under recover and the hang watchdog.
 func runCase(f *Family, i int64, r *R) {
 	r.curFam, r.curIdx, r.curDesc = f.Name, i, f.Desc
 	caseLabel.Store(fmt.Sprintf("%s#%d", f.Name, i))
-	caseStart.Store(time.Now().UnixNano())
+	caseStart.Store(int64(time.Since(procStart)) + 1)
 	defer caseStart.Store(0)
 	defer func() {
 		if e := recover(); e != nil {
@@ -231,7 +232,7 @@ func Worker(p *Property, tier string, shard, n int, out string, deadline time.Ti
 		for {
 			time.Sleep(200 * time.Millisecond)
 			st := caseStart.Load()
-			if st != 0 && time.Since(time.Unix(0, st)) > hangLimit {
+			if st != 0 && time.Since(procStart)-time.Duration(st) > hangLimit { // monotonic: a wall-clock step cannot fake a hang
 				lbl, _ := caseLabel.Load().(string)
 				r.Notes = append(r.Notes, "HANG "+lbl)
 				// cannot touch r safely beyond this; write a minimal hang record
